@@ -251,6 +251,10 @@ func nilSuite(line nilLine, emit func(reflVerdict)) (origins, checks int) {
 			b, err := proto.MarshalOptions{Deterministic: true}.Marshal(m)
 			return []any{proj.Bytes(b), err == nil}
 		})
+		lib("MarshalAppend", func(m proto.Message) any {
+			b, err := proto.MarshalOptions{}.MarshalAppend([]byte{7, 8, 9}, m)
+			return []any{proj.Bytes(b), err == nil}
+		})
 		lib("EqualSelf", func(m proto.Message) any { return proto.Equal(m, m) })
 		lib("EqualEmpty", func(m proto.Message) any { return proto.Equal(m, m.ProtoReflect().New().Interface()) })
 		lib("Clone", func(m proto.Message) any { c := proto.Clone(m); return []any{c.ProtoReflect().IsValid(), proto.Size(c)} })
